@@ -205,15 +205,27 @@ fn gen_issue(thorough: bool, rng: &mut Rng) -> Result<(), String> {
                 (Ok(b), Ok(p)) => guard(|| Issuer::sign_credential(&s.prover_id, &b, &p, &nonce2, &s.inonce, &s.known, &cd.pk, &cd.sk).map(|_| ())),
                 _ => Out::Err("decode".into()),
             };
+            // the check function on its own (hook): later stages of sign_credential must not mask its verdict
+            let chk: Out<()> = match (from_jv::<BlindedCredentialSecrets>(&b2), from_jv::<BlindedCredentialSecretsCorrectnessProof>(&p2), from_jv::<CredentialPrimaryPublicKey>(&pkj)) {
+                (Ok(b), Ok(p), Ok(ppk)) => guard(|| Issuer::verif_check_blinded_credential_secrets_correctness_proof(&b, &p, &nonce2, &ppk)),
+                _ => Out::Err("decode".into()),
+            };
             let mut oracles = vec![];
             let same_cd_other = name.contains("other session") && other.cd_name != s.cd_name;
             let _ = same_cd_other;
             if res.is_ok() {
                 oracles.push(json!({"name":"issuer_rejects_altered","ok":false,"detail":format!("issuer signed after alteration '{}'", name)}));
             }
+            if chk.is_ok() {
+                oracles.push(json!({"name":"issuer_rejects_altered","ok":false,"detail":format!("the issuer's check of the blinded-secrets proof passed after alteration '{}'", name)}));
+            }
+            if matches!(chk, Out::Panic(_)) {
+                oracles.push(json!({"name":"issuer_no_panic","ok":false,"detail":format!("the blinded-secrets check panicked after alteration '{}': {}", name, chk.msg())}));
+            }
             if matches!(res, Out::Panic(_)) {
                 oracles.push(json!({"name":"issuer_no_panic","ok":false,"detail":format!("sign_credential panicked after alteration '{}': {}", name, res.msg())}));
             }
+            let res = chk;
             let cls: String = name.split('[').next().unwrap_or("").to_string();
             emit(&json!({"id": format!("issue/{}/alt-b/{}", si, ai), "op": "blinded_check",
                 "in": {"backend": backend_str(), "pk": pkj, "blinded": b2, "proof": p2, "nonce": nonce_dec},
@@ -242,6 +254,14 @@ fn gen_issue(thorough: bool, rng: &mut Rng) -> Result<(), String> {
         }
         for k in map_keys(&pkj, "/r") {
             if let Some(v) = bump_path(&pkj, &format!("/r/{}", k), 1) { kalts.push((format!("pk.r[{}]+1", k), v, kj.clone())); }
+        }
+        // an extra generator the proof does not cover (any name: only the legacy "master_secret" may be
+        // missing from xr_cap, and the fixture proofs cover that one)
+        for extra in ["link_secret", "linksecret", "master_secret2", "zz_extra", ""] {
+            let mut v = pkj.clone();
+            let val = if extra == "link_secret" { dec_add(pkj["n"].as_str().unwrap_or("0"), -1) } else { pkj["s"].as_str().unwrap_or("4").to_string() };
+            v["r"].as_object_mut().unwrap().insert(extra.to_string(), json!(val));
+            kalts.push((format!("pk.r add uncovered '{}'", extra), v, kj.clone()));
         }
         for (ai, (name, pk2, k2)) in kalts.into_iter().enumerate() {
             let mut full = jv(&cd.pk);
@@ -325,10 +345,33 @@ fn gen_issue(thorough: bool, rng: &mut Rng) -> Result<(), String> {
         while e_comp.is_prime().unwrap_or(false) {
             e_comp = e_comp.add(&bn::BigNumber::from_u32(2).unwrap()).map_err(|e| e.to_string())?;
         }
+        // primes at the very ends of the prescribed interval [2^596, 2^596 + 2^119): the first / last one
+        // inside (accepted) and the nearest ones outside, plus one in the next bit band
+        let two = bn::BigNumber::from_u32(2).map_err(|e| e.to_string())?;
+        let pow2 = |k: usize| -> Result<bn::BigNumber, String> { two.exp(&bn::BigNumber::from_u32(k).map_err(|e| e.to_string())?).map_err(|e| e.to_string()) };
+        let lo = pow2(596)?;
+        let hi = lo.add(&pow2(119)?).map_err(|e| e.to_string())?;
+        let near_prime = |start: &bn::BigNumber, up: bool| -> Result<bn::BigNumber, String> {
+            // start is even: first odd candidate on the requested side
+            let one = bn::BigNumber::from_u32(1).map_err(|e| e.to_string())?;
+            let mut c = if up { start.add(&one) } else { start.sub(&one) }.map_err(|e| e.to_string())?;
+            while !c.is_prime().unwrap_or(false) {
+                c = if up { c.add(&two) } else { c.sub(&two) }.map_err(|e| e.to_string())?;
+            }
+            Ok(c)
+        };
+        let e_first_in = near_prime(&lo, true)?;
+        let e_last_below = near_prime(&lo, false)?;
+        let e_last_in = near_prime(&hi, false)?;
+        let e_first_above = near_prime(&hi, true)?;
+        let e_next_band = near_prime(&hi.add(&bn::BigNumber::from_hex(&format!("{}0", rng.hex_bits(112))).map_err(|e| e.to_string())?).map_err(|e| e.to_string())?, true)?;
         let skj = jv(&cd.sk);
         let known_map: BTreeMap<String, String> = jv(&s.known)["attrs_values"].as_object().map(|m| m.iter().map(|(k, v)| (k.clone(), v["Known"]["value"].as_str().unwrap_or("0").to_string())).collect()).unwrap_or_default();
         for (vi, (variant, e, wrong_root, accept)) in [("honest", &e_ok, "0", true), ("composite_e", &e_comp, "0", false), ("prime_e_above", &e_high, "0", false),
-                                              ("prime_e_below", &e_low, "0", false), ("wrong_root", &e_ok, "3", false)].iter().enumerate() {
+                                              ("prime_e_below", &e_low, "0", false), ("wrong_root", &e_ok, "3", false),
+                                              ("prime_e_first_inside", &e_first_in, "0", true), ("prime_e_last_inside", &e_last_in, "0", true),
+                                              ("prime_e_last_below", &e_last_below, "0", false), ("prime_e_first_above", &e_first_above, "0", false),
+                                              ("prime_e_next_bit_band", &e_next_band, "0", false)].iter().enumerate() {
             let vpp = format!("{}", dec_of_hex(&format!("8{}", rng.hex_bits(2720))));
             emit(&json!({"id": format!("issue/{}/ref/{}", si, vi), "op": "sign",
                 "in": {"backend": backend_str(), "pk": pkj, "p": skj["p_key"]["p"], "q": skj["p_key"]["q"], "u": bj["u"],
@@ -459,8 +502,54 @@ pub fn g1_canon(s: &str) -> String {
     }
 }
 
+/// C04: the credential context m2 = H(prover id, revocation index) through the hook, in batches
+fn gen_ctx(thorough: bool, rng: &mut Rng) -> Result<(), String> {
+    let mut items: Vec<(String, Option<u32>)> = vec![];
+    let nid = if thorough { 20000 } else { 3000 };
+    for k in 0..nid {
+        // plain ids of several shapes; one digest in 256 ends in a zero byte (the encoding of the
+        // intermediate number then has a leading zero to drop)
+        let id = match k % 4 {
+            0 => format!("did:example:holder-{}", k),
+            1 => format!("prover-{}", rng.hex_bits(40)),
+            2 => format!("{}", k),
+            _ => rng.hex_bits(8 + (k % 200)),
+        };
+        items.push((id, if k % 3 == 0 { None } else { Some(rng.below(1 << 20) as u32) }));
+    }
+    for id in ["", " ", "CnEDk9HrMnmiHXEV1WFgbVCRteYnPqsJwrTdcZaNhFVW", "pr\u{f6}ver-\u{1F600}", "a\nb"] {
+        items.push((id.to_string(), None));
+        items.push((id.to_string(), Some(1)));
+    }
+    let nidx = if thorough { 70000 } else { 5000 };
+    for i in 0..nidx { items.push(("prover".to_string(), Some(i))); }
+    for i in [i32::MAX as u32 - 1, i32::MAX as u32, 1u32 << 31, (1u32 << 31) + 1, u32::MAX - 1, u32::MAX, 3_000_000_000] {
+        items.push(("prover".to_string(), Some(i)));
+    }
+    for chunk in items.chunks(1000).enumerate() {
+        let (ci, ch) = chunk;
+        let mut outs = vec![];
+        let mut oracles = vec![];
+        for (id, idx) in ch {
+            let r = guard(|| Issuer::verif_gen_credential_context(id, *idx));
+            match &r {
+                Out::Ok(b) => outs.push(json!(b.to_dec().unwrap_or_default())),
+                o => {
+                    outs.push(json!(o.tag()));
+                    oracles.push(json!({"name":"m2_context","ok":false,"detail":format!("credential context for ({:?}, {:?}) is {} {}", id, idx, o.tag(), o.msg())}));
+                }
+            }
+        }
+        emit(&json!({"id": format!("ctx/{}", ci), "op": "ctx",
+            "in": {"backend": backend_str(), "items": ch.iter().map(|(id, idx)| json!({"prover_id": id, "rev_idx": idx})).collect::<Vec<_>>()},
+            "impl": {"m2": outs, "oracles": oracles}, "class": {"kind": "credential-context", "count": ch.len()}}));
+    }
+    Ok(())
+}
+
 pub fn gen(stream: &str, thorough: bool, rng: &mut Rng) -> Option<Result<(), String>> {
     match stream {
+        "ctx" => Some(gen_ctx(thorough, rng)),
         "issue" => Some(gen_issue(thorough, rng)),
         "keygen" => Some(gen_keygen(thorough, rng)),
         _ => None,
